@@ -1118,6 +1118,7 @@ func runC18(tier, replay string) int {
 		}
 	}
 	r.Count("race_reports", totalRaceReports)
+	r.Extra("added_in_seeding_round_6", "read mix includes full-text queries whose terms match the bugs other workers are creating (query-search)")
 	return r.Finish("generated mixes of cache calls by 2..16 goroutines on shared and private bugs, varying GOMAXPROCS, cache size, loaded/unloaded start, yield/delay injection at hook points; per run: exactly-once / no-phantom / single-chain check on the stored history read by an independent reader, porcupine linearizability of per-bug append/read histories, cache vs rebuild, crash and deadlock classification, race-detector reports on the race build; non-trivial = at least one acknowledged operation; distinct = (workers, procs, mix, cache size, start state, committed-order fingerprint)",
 		8, []string{"acknowledged = the append returned an operation and the following Commit/CommitAsNeeded returned nil (a Commit that finds nothing pending because another worker already committed counts as success)", "errored calls stay open in the history: counted as effective iff their unique marker is stored", "a watchdog firing is a deadlock only if the goroutine dump shows every unfinished worker parked on a lock"})
 }
